@@ -27,7 +27,7 @@ UnionSeq(ss) == IF ss = << >> THEN {} ELSE Head(ss) \cup UnionSeq(Tail(ss))
 (* ------------------------------------------------------------------------ *)
 (* Packages.  Abstract ids; (path, name) is in the concretisation table of   *)
 (* lib/codegen_worlds.py.  Names collide on purpose.                         *)
-ForeignPkgs == {"FX", "FY", "FZ", "FV", "FM", "FS", "FC"}
+ForeignPkgs == {"FX", "FY", "FZ", "FV", "FM", "FS", "FC", "FD"}
 StdPkgs     == {"Sio", "Scontext", "Stime", "Sfmt", "Ssync", "Sunsafe"}
 \* "SRC" is the package under test (its *name* is part of the program),
 \* "TM" is github.com/stretchr/testify/mock (named by the testify template itself)
@@ -41,6 +41,7 @@ PkgName(p, srcname) ==
     [] p = "FM" -> "mock"        \* example.com/w/h/mock     collides with the testify template's import
     [] p = "FS" -> "sync"        \* example.com/w/h/sync     collides with the matryer template's import
     [] p = "FC" -> "constraints" \* example.com/w/h/constraints
+    [] p = "FD" -> "dash"        \* example.com/w/gopkg.in/go-dash.v3   dots, dash, version suffix: name is not the path base
     [] p = "Sio" -> "io" [] p = "Scontext" -> "context" [] p = "Stime" -> "time"
     [] p = "Sfmt" -> "fmt" [] p = "Ssync" -> "sync" [] p = "Sunsafe" -> "unsafe"
     [] p = "TM" -> "mock"
@@ -216,7 +217,10 @@ Env(tps, as) == [x \in {tps[i] : i \in 1..Len(tps)} |-> as[CHOOSE i \in 1..Len(t
 \* set of methods (records with substituted types); identical methods reached through several embeds collapse
 RECURSIVE MethodSetOf(_, _, _)
 MethodSetOf(decls, t, depth) ==
-  IF depth = 0 THEN {} ELSE
+  IF depth = 0 THEN {}
+  \* embedded predeclared interfaces: `error` (a named type of the universe, no package) and `any`
+  ELSE IF t.k = "basic" THEN (IF t.n = "error" THEN {Meth("Error", << >>, <<V("", B("string"))>>, FALSE)} ELSE {})
+  ELSE
   LET d   == DeclOf(decls, t)
       env == IF t.k = "inst" THEN Env(d.tps, t.as) ELSE << >>
       own == {SubstMeth(d.ms[i], env) : i \in 1..Len(d.ms)}
@@ -246,10 +250,12 @@ PickByName(ms, n) == CHOOSE m \in ms : m.n = n
 \* candidate type arguments and what the satisfaction relation needs to know about them
 Candidates == {B("int"), B("string"), B("uint8"), N("SRC", "LE"), N("SRC", "LT"), N("SRC", "LS"), N("SRC", "LSI"), N("FX", "E"),
                Ptr(N("SRC", "LT")), Slice(N("FX", "T")), Slice(N("Stime", "Duration")), Slice(N("SRC", "LT")), Slice(N("FY", "T")),
-               Map(B("string"), Ptr(N("FX", "T"))), Fn(<<V("", N("Scontext", "Context"))>>, <<V("", B("error"))>>, FALSE)}
-UnderlyingOf(t) == IF t.k = "named" THEN (IF t.n \in {"LE", "LSI", "E"} THEN B("int") ELSE [k |-> "struct-decl", n |-> t.n]) ELSE t
+               Map(B("string"), Ptr(N("FX", "T"))), Fn(<<V("", N("Scontext", "Context"))>>, <<V("", B("error"))>>, FALSE),
+               N("SRC", "LL")}                                     \* type LL int with Less(LL) bool and String() string
+UnderlyingOf(t) == IF t.k = "named" THEN (IF t.n \in {"LE", "LSI", "E", "LL"} THEN B("int") ELSE [k |-> "struct-decl", n |-> t.n]) ELSE t
 IsComparableType(t) == t.k \in {"basic", "named", "ptr"}
-HasStringMethod(t) == t.k = "named" /\ t.n \in {"LS", "LSI"}
+\* methods constraints of the alphabet ask for: String() string, Less(T) bool (recursive constraint)
+HasMethodNamed(t, m) == t.k = "named" /\ ((m = "String" /\ t.n \in {"LS", "LSI", "LL"}) \/ (m = "Less" /\ t.n = "LL"))
 \* named constraints of the helper packages / the package under test, as element lists
 NamedConstraint(n) ==
   CASE n \in {"C", "LC"} -> Iface(<< >>, <<Union(<<B("int"), B("string")>>)>>)
@@ -264,7 +270,7 @@ Sat(t, cn) ==
     [] cn.k = "union" -> \E i \in 1..Len(cn.ts) : IF cn.ts[i].k = "plain" THEN t = cn.ts[i].e ELSE UnderlyingOf(t) = cn.ts[i]
     [] cn.k = "named" -> Sat(t, NamedConstraint(cn.n))
     [] cn.k = "iface" -> /\ \A i \in 1..Len(cn.es) : Sat(t, cn.es[i])
-                         /\ (Len(cn.ms) > 0 => HasStringMethod(t))            \* the only method constraints use is String() string
+                         /\ \A i \in 1..Len(cn.ms) : HasMethodNamed(t, cn.ms[i].n)
 ConstraintModels(cn) == {t \in Candidates : Sat(t, cn)}
 RECURSIVE TargTuples(_)
 TargTuples(tps) == IF tps = << >> THEN {<< >>}
@@ -276,7 +282,7 @@ TargTuples(tps) == IF tps = << >> THEN {<< >>}
 (* use, ascending.  lib/codegen_worlds.py asserts that it is sorted (on the  *)
 (* concretised names: "Zz.." stand for non-ASCII identifiers, which TLC      *)
 (* cannot print; an unexported name sorts by package-path-qualified Id).     *)
-MethodOrder == <<"Close", "Do", "EXPECT", "Foo", "Func", "Get", "GetCalls", "Lock", "M", "M1", "M2", "M3", "M4", "MCalls",
+MethodOrder == <<"All", "Close", "Do", "EXPECT", "Error", "Foo", "Func", "Get", "GetCalls", "Lock", "M", "M1", "M2", "M3", "M4", "MCalls",
                  "N", "On", "Put", "Range", "Read", "ResetCalls", "String", "Type", "Unlock", "V", "W", "Write", "X",
                  "m", "Zzecoute">>
 MRank(n) == CHOOSE i \in 1..Len(MethodOrder) : MethodOrder[i] = n
